@@ -14,6 +14,7 @@ H1 == Fn("h1")  H2 == Fn("h2")  H3 == Fn("h3")
 AttrAtoms == {
   Plain("id", AvStr(<<"a", "sp", "sp", "b">>)),
   Plain("title", AvStr(<<"a", "sp", "lf", "sp", "b", "sp">>)),
+  Plain("alt", AvStr(<<"a", "tab", "b", "sp", "sp">>)),       \* a tab on a single line
   Plain("disabled", AvNone),
   Plain("foo", AvExpr(Ident("b1", TRUE, Opq("vb1")))),
   Plain("bar", AvExpr(Ident("u1", FALSE, Num(7)))),
